@@ -68,6 +68,22 @@ def _stub_input(prompt=""):
 _time_mod.time, _time_mod.strftime, os.urandom = _stub_time, _stub_strftime, _stub_urandom
 _getpass_mod.getpass, _builtins.input = _stub_getpass, _stub_input
 
+# scratch directories of the harness (tempfile.mkdtemp(prefix="verif-...")) are removed when the check process ends
+import atexit as _atexit, shutil as _shutil, tempfile as _tempfile  # noqa: E402
+_scratch = []
+_real_mkdtemp = _tempfile.mkdtemp
+
+
+def _mkdtemp(*a, **k):
+    d = _real_mkdtemp(*a, **k)
+    if os.path.basename(d).startswith("verif-"):
+        _scratch.append(d)
+    return d
+
+
+_tempfile.mkdtemp = _mkdtemp
+_atexit.register(lambda: [_shutil.rmtree(d, ignore_errors=True) for d in _scratch])
+
 import vncdotool  # noqa: E402
 
 assert os.path.realpath(os.path.dirname(vncdotool.__file__)) == os.path.realpath(
